@@ -5,7 +5,7 @@
    over ANY well-formed option table, from ANY parser state (settings so far,
    arguments collected so far) and with ANY following arguments.  Byte values:
    45 = '-', 61 = '=', 44 = ','. *)
-From PV Require Import Lib.Bytes Model.Getopt Gen.Options Spec.OptionsDoc Proofs.Getopt Model.Logger Proofs.Logger.
+From PV Require Import Lib.Bytes Model.Getopt Gen.Options Spec.OptionsDoc Proofs.Getopt Model.Logger Proofs.Logger Proofs.LoggerInv Proofs.LoggerOut.
 Open Scope N_scope.
 
 (* the option table regenerated from ParseCommandLine presents exactly the documented interface *)
@@ -169,6 +169,18 @@ Theorem C08_presentation_irrelevant : forall o1 o2 evs,
   forall werror, exit_status werror a = exit_status werror b.
 Proof. exact presentation_irrelevant. Qed.
 Print Assumptions C08_presentation_irrelevant.
+
+(* the machine marks a Go panic site with the ghost flag l_panicked and goes on; the flag
+   stays false for well-formed events, so the statement above is not about garbage *)
+Theorem C08_logger_never_panics : forall o evs,
+  Forall (fun ev => match ev with
+                    | EvFix ln fv _ _ _ _ _ => (length (ln_raws ln) <= length (fv_texts fv))%nat
+                    | EvSummary args => args <> []
+                    | _ => True
+                    end) evs ->
+  l_panicked (log_run o evs) = false.
+Proof. exact logger_never_panics. Qed.
+Print Assumptions C08_logger_never_panics.
 
 (* every tuple printed with --only S is printed by the unrestricted run.  With -f / -F
    unconditionally; in the default mode under the audited assumption that two events
